@@ -53,7 +53,11 @@ def execute_py7zr_written(case):
                 bio.seek(0)
                 nsess += 1
                 filt, pw = case["filters"], case.get("password")
-                if case.get("mixed"):                      # sessions differ in encryption: AES first, plain later
+                if case.get("mixed") == "plain-first":     # ... plain first, AES later: chains that END in the same coder (seed C10-8)
+                    filt = [{"id": 0x21, "preset": 1}] if nsess == 1 else [{"id": 0x21, "preset": 1}, {"id": 0x06F10701}]
+                    pw = None if nsess == 1 else "pw"
+                    aes_used = aes_used or nsess > 1
+                elif case.get("mixed"):                    # sessions differ in encryption: AES first, plain later
                     filt = [{"id": 0x21, "preset": 1}, {"id": 0x06F10701}] if nsess == 1 else [{"id": 0x21, "preset": 1}]
                     pw = "pw" if nsess == 1 else None
                     aes_used = True
@@ -96,10 +100,14 @@ def execute_py7zr_written(case):
         extra = len(P.folders) - len(used)
         calls = case["calls"] if not case.get("mixed") else [c for c in case["calls"] if c["name"] not in ("extractall", "reset")]
         tr = rsession.run_calls(py7zr, raw, shape2, info, calls, target=case.get("target", "stream"),
-                                password=None if case.get("mixed") else case.get("password"), ending="close", workdir=wd,
-                                has_aes=aes_used or any(f.get("id") == 0x06F10701 for f in case["filters"]), extra_folders=extra)
+                                password=("pw" if aes_used else None) if case.get("mixed") == "plain-first" else (None if case.get("mixed") else case.get("password")),
+                                ending="close", workdir=wd,
+                                has_aes=aes_used or (case.get("mixed") != "plain-first" and any(f.get("id") == 0x06F10701 for f in case["filters"])),
+                                extra_folders=extra)
         if extra and not any(m["kind"] in ("file", "empty") for m in shape["members"]):
             case["methods"] = sorted(set(case["methods"]) | set(case.get("methods_if_any_folder", [])))
+        if case.get("mixed") == "plain-first" and case["methods"]:
+            case["methods"] = ["7zAES", "LZMA2"] if aes_used else ["LZMA2"]
         tr[0]["methods"] = case["methods"]
         return tr
     finally:
@@ -145,9 +153,11 @@ def run(tier, rep, ev):
         shape = [_read.A1, _read.A2][i] if i < 2 else _read.random_shape(R, 8)
         # py7zr sessions: folder numbers must be non-decreasing in member order (one session per folder) - random_shape guarantees it
         filt, names = chains[i % len(chains)]
+        if i % 10 == 4 and shape["nfolders"] < 2:
+            shape = _read.A2        # (sessions of different kinds need two sessions)
         pw = "pw" if "7zAES" in names else (None if i % 5 else "pw")
         has_data = any(m["kind"] in ("file", "empty") for m in shape["members"])
-        mixed = i % 10 == 9
+        mixed = True if i % 10 == 9 else ("plain-first" if i % 10 == 4 else False)
         py_cases.append({"shape": shape, "calls": CALLS, "password": pw, "filters": filt, "seed": i, "target": "path" if (i // len(chains)) % 2 == 0 else "stream",
                          "methods": (sorted(set(names)) if not mixed else ["7zAES", "LZMA2"]) if has_data else [],
                          "methods_if_any_folder": sorted(set(names)) if not mixed else ["7zAES", "LZMA2"],      # (a stream-less folder carries its session's chain too)
